@@ -357,3 +357,22 @@ func loadKnownFindings(path, prop string) map[string]bool {
 	}
 	return out
 }
+
+// TestList prints every registered scenario (property, name, rule) as JSON lines; used to generate the
+// per-property table in DESIGN.md.
+func TestList(t *testing.T) {
+	if os.Getenv("VERIF_LIST") == "" {
+		t.Skip("set VERIF_LIST=1")
+	}
+	var props []string
+	for p := range registry {
+		props = append(props, p)
+	}
+	sort.Strings(props)
+	for _, p := range props {
+		for _, sc := range registry[p] {
+			b, _ := json.Marshal(map[string]any{"property": p, "scenario": sc.Name, "rule": sc.Rule, "real": sc.Real, "stub": sc.Stub})
+			fmt.Println(string(b))
+		}
+	}
+}
